@@ -837,13 +837,15 @@ func ThrottleTime[T any](interval time.Duration) func(Observable[T]) Observable[
 	return func(source Observable[T]) Observable[T] {
 		return NewObservableWithContext(func(subscriberCtx context.Context, destination Observer[T]) Teardown {
 			lastAt := int64(0)
+			emitted := false // the first value always passes, whatever the process uptime
 
 			sub := source.SubscribeWithContext(
 				subscriberCtx,
 				NewObserverWithContext(
 					func(ctx context.Context, value T) {
 						now := xtime.NowNanoMonotonic()
-						if lastAt+intervalNano < now {
+						if !emitted || lastAt+intervalNano < now {
+							emitted = true
 							lastAt = now
 
 							destination.NextWithContext(ctx, value)
